@@ -357,6 +357,11 @@ class ExprMixin:
                         continue
                     c = self.truthy(v)
                     go, stop = (c, smt.Not(c)) if is_and else (smt.Not(c), c)
+                    if go.s not in ("true", "false") and not self.contract.merge:
+                        if self.entails(s2, go, ms=100):
+                            go, stop = smt.TRUE, smt.FALSE
+                        elif self.entails(s2, stop, ms=100):
+                            go, stop = smt.FALSE, smt.TRUE
                     if stop.s != "false":
                         s_stop = s2.copy().assume(stop)
                         results.append((s_stop, v))
